@@ -352,6 +352,27 @@ MY_SEEDS = {
      ["AddColumn", "T_summary_grp", "cnts", {"type": "Any", "isFormula": True,
                                              "formula": "list($group.cnt)"}]],
   ],
+  "c06_fkey": [     # lookups KEYED BY FORMULA COLUMNS whose rows do not become ready together: Item.key
+                    # needs another (cross-table) formula cell only in the rows that have no `own`
+                    # value, Item.kb is derived from key and a second formula column; the indexes
+                    # on them are read from another table (Board), from the same table (peers) and
+                    # in sorted form (ids).  No cycle.
+    [["AddTable", "Cat", [_col("name", "Text"), _col("base", "Int"),
+                          _col("label", "Any", "$name.upper() if $name else 'C%d' % ($base or 0)")]],
+     ["AddTable", "Item", [_col("cat", "Ref:Cat"), _col("own", "Text"), _col("n", "Int"),
+                           _col("bucket", "Any", "($n or 0) // 10"),
+                           _col("key", "Any", "$own or $cat.label"),
+                           _col("kb", "Any", "'%s/%s' % ($key, $bucket)"),
+                           _col("peers", "Any", "len(Item.lookupRecords(key=$key))")]],
+     ["AddTable", "Board", [_col("k", "Text"), _col("b", "Int"),
+                            _col("cnt", "Any", "len(Item.lookupRecords(key=$k))"),
+                            _col("ids", "Any", "[r.id for r in Item.lookupRecords(key=$k, order_by='-n')]"),
+                            _col("kbs", "Any", "len(Item.lookupRecords(kb='%s/%s' % ($k, $b)))")]]],
+    [["BulkAddRecord", "Cat", [None, None], {"name": ["x", ""], "base": [1, 2]}],
+     ["BulkAddRecord", "Item", [None] * 5, {"cat": [1, 1, 2, 2, 1], "own": ["M1", "", "", "", "C2"],
+                                            "n": [5, 12, 17, 25, 31]}],
+     ["BulkAddRecord", "Board", [None] * 4, {"k": ["X", "M1", "C2", "zz"], "b": [1, 0, 1, 2]}]],
+  ],
   "c06_lookup_cycle": [
     [["AddTable", "A", [_col("n", "Int"), _col("k", "Any", "len(A.lookupRecords(k=$n))"),
                         _col("m", "Any", "A.lookupOne(n=$n + 1).m"),
@@ -366,6 +387,8 @@ FOCUS = "_focus"
 for _name in ("c06_trigger_rows", "c06_trigger_sum", "trigger_deps"):
   gen.SEEDS[_name + FOCUS] = gen.SEEDS[_name]
 
+FRESH_PREFIX = "aL"      # columns added by C06Monitor.fresh_lookup ("aL..", "zzaL..")
+
 CYCLE_FORMULAS = [
   "$a", "$b", "$c", "$d", "$f", "$n", "$x", "$y", "$z", "$k", "$m", "$p", "$g",
   "$a + 1 if $n > 1 else $n", "($b or 0) + ($c or 0)", "$f + $g", "$r.x", "$r.y", "$back.x",
@@ -377,6 +400,8 @@ CYCLE_FORMULAS = [
   "IFERROR($a, -1)", "IFERROR($b, -1) + IFERROR($c, -2)", "IFERROR($o.a, 0)", "$o.b", "$o.a",
   "try:\n  return $b\nexcept Exception:\n  return -1", "try:\n  v = $c\nexcept:\n  v = -3\nv",
   "$a if rec.id == 2 else 7", "$n + ($o.b or 0)", "ISERROR($d)", "IF($n > 1, $a, $b)",
+  # lookups keyed by a formula column, looked up by that column's own value (always a hit)
+  "len(A.lookupRecords(f=$f))", "len(A.lookupRecords(c=$c))", "[r.id for r in A.lookupRecords(b=$b)]",
 ]
 
 
@@ -385,7 +410,7 @@ CYCLE_FORMULAS = [
 # ------------------------------------------------------------------------------------------------
 
 class C06Monitor(explore.Monitor):
-  seeds = ("c06_cycle", "c06_cross", "c06_rows", "c06_lookup_cycle", "c06_trigger", "trigger_deps",
+  seeds = ("c06_cycle", "c06_cross", "c06_rows", "c06_lookup_cycle", "c06_fkey", "c06_trigger", "trigger_deps",
            "basic", "refs", "lookup", "summary", "c06_trigger_rows", "c06_trigger_sum",
            "c06_trigger_rows" + FOCUS, "c06_trigger_sum" + FOCUS, "trigger_deps" + FOCUS)
   length = 4
@@ -552,9 +577,108 @@ class C06Monitor(explore.Monitor):
                {"type": "Any", "isFormula": True, "formula": f}]]
     return None
 
+  def key_inputs(self, tabs, t, k):
+    """(data columns, formula columns) of table t that formula column k reads through `$name`,
+    directly or through other formula columns of t (static, by name)."""
+    by_id = {c[0]: c for c in tabs[t][0]}
+    data, forms, todo, seen = [], [], [k], set()
+    while todo:
+      c = todo.pop()
+      if c[0] in seen: continue
+      seen.add(c[0])
+      for name in re.findall(r"\$([A-Za-z_][A-Za-z_0-9]*)", c[3] or ""):
+        d = by_id.get(name)
+        if d is None or d[0] in seen or d[0] == "manualSort": continue
+        if d[2]:
+          forms.append(d); todo.append(d)
+        elif not d[3] and d not in data:
+          data.append(d)
+    return data, forms
+
+  def fresh_lookup(self, e, g):
+    """A bundle in which a lookup KEYED BY A FORMULA COLUMN K appears (AddColumn / ModifyColumn with
+    a lookupRecords / lookupOne formula on K: unless the same index exists already, it is created
+    while the bundle is recalculated) together with an edit that leaves K dirty in SOME rows: an
+    UpdateRecord / BulkUpdateRecord of a data column K reads (mostly not in the first row, mostly
+    copying another row's value so that keys collide and lookups hit), or a ModifyColumn of a
+    formula column K reads (or of K).  The lookup is by K's own value in the same table (always a
+    hit), or from another table by a column whose values meet K's."""
+    rng = g.rng
+    tabs = g.doc(e)
+    dts = g.data_tables(tabs)
+    cands = [(t, c) for t in dts if len(tabs[t][1]) >= 2 for c in tabs[t][0]
+             if c[2] and c[0] not in ("manualSort", "group")]
+    if not cands: return None
+    t, k = rng.choice(cands)
+    rows = list(tabs[t][1])
+    data, forms = self.key_inputs(tabs, t, k)
+    def cell(tab, col, r):
+      try: return e.tables[tab].get_column(col).raw_get(r)
+      except Exception: return None
+    # -- the edit that dirties K in some rows
+    dirty = []
+    how = rng.choice(["update"] * 6 + ["modify"] * 2 + ["none"])
+    if how == "update" and data:
+      d = rng.choice(data)
+      pool = rows[1:] if rng.random() < 0.8 else rows
+      rs = sorted(rng.sample(pool, min(len(pool), rng.choice([1, 1, 2]))))
+      def value(r):
+        if rng.random() < 0.7:
+          others = [cell(t, d[0], q) for q in rows if q != r]
+          others = [v for v in others if not isinstance(v, (list, tuple)) and v != cell(t, d[0], r)]
+          if others: return rng.choice(others)
+        return rng.choice(gen.values_for(d[1], rng, e, g.rows_of(e)))
+      if len(rs) == 1:
+        dirty = [["UpdateRecord", t, rs[0], {d[0]: value(rs[0])}]]
+      else:
+        dirty = [["BulkUpdateRecord", t, rs, {d[0]: [value(r) for r in rs]}]]
+    elif how == "modify":
+      f = rng.choice(forms + [k])
+      dirty = [["ModifyColumn", t, f[0], {"formula": rng.choice([f[3] + " ", "(%s)" % f[3]
+                                                                  if "\n" not in f[3] else f[3] + "\n"])}]]
+    # -- the new lookup
+    K = k[0]
+    kvals = set()
+    for r in rows:
+      v = cell(t, K, r)
+      try: kvals.add(v)
+      except TypeError: pass
+    hosts = [h for h in dts if h != t and tabs[h][1]]
+    if hosts and rng.random() < 0.4:
+      host = rng.choice(hosts)
+      cols = [c for c in tabs[host][0] if c[0] not in ("manualSort", "group")]
+      def meets(c):
+        for r in tabs[host][1]:
+          try:
+            if cell(host, c[0], r) in kvals: return True
+          except TypeError: pass
+        return False
+      hit = [c for c in cols if meets(c)]
+      x = "$" + rng.choice(hit or cols)[0] if (hit or cols) else "$id"
+    else:
+      host, x = t, "$" + K
+    form = rng.choice(["len(%s.lookupRecords(%s=%s))", "[r.id for r in %s.lookupRecords(%s=%s)]",
+                       "%s.lookupOne(%s=%s, order_by='-id').id",
+                       "[r.id for r in %s.lookupRecords(%s=%s, order_by='-id')]"]) % (t, K, x)
+    mine = [c for c in tabs[host][0] if c[2] and c[0].startswith(FRESH_PREFIX) and c[0] != K]
+    if mine and rng.random() < 0.3:
+      look = [["ModifyColumn", host, rng.choice(mine)[0], {"formula": form}]]
+    elif len(tabs[host][0]) < 12:
+      # names sorting before and after the usual column names
+      look = [["AddColumn", host, FRESH_PREFIX + rng.choice(["", "", "z"]),
+               {"type": "Any", "isFormula": True, "formula": form}]]
+    else:
+      return None
+    if rng.random() < 0.5:
+      look = [["AddColumn", host, "zz" + look[0][2], look[0][3]]] if look[0][0] == "AddColumn" else look
+    return (dirty + look) if rng.random() < 0.7 else (look + dirty)
+
   def gen_bundle(self, st, e, g):
     r = g.rng.random()
     has_trigger = bool(self.trigger_tables(e, g)[1])
+    if not st.get("focus") and g.rng.random() < (0.08 if has_trigger else 0.22):
+      b = self.fresh_lookup(e, g)
+      if b: return b
     if st.get("focus") and has_trigger and r < 0.9:
       b = self.trigger_update(e, g) if r < 0.8 else self.multi_row_reader(e, g)
       if b: return b
